@@ -6,6 +6,7 @@ ref_header / ref_sgml readers.
 """
 import io
 import itertools
+import os
 
 from vf.gen import render
 from vf.oracles import ref_header, ref_sgml
@@ -114,7 +115,15 @@ def check(ctx, data, kind, F, body, tree, feat):
     ctx.count("tree_checked")
     try:
         t = OFXTree()
-        root = t.parse(io.BytesIO(data))
+        if ctx.evaluations % 7 == 0:
+            # the same bytes through a real file opened by name (OFXTree.parse accepts a path)
+            path = os.path.join(ctx.scratch, "c05-input.ofx")
+            with open(path, "wb") as f:
+                f.write(data)
+            root = t.parse(path)
+            ctx.count("parsed_by_filename")
+        else:
+            root = t.parse(io.BytesIO(data))
         if ref_sgml.from_etree(root) != tree:
             ctx.violation(f"{tag}/tree-differs", f"OFXTree.parse tree differs for body {body[:100]!r}", case)
     except Exception as e:
